@@ -82,9 +82,9 @@ let run_case (fields : string list) : string =
     let (ls, e) = scan (big_n_of_string limit) (str_of_hex b) in
     (if e then "TOOLONG" else "OK") ^ "\t" ^ arg_of_strs ls
   | "renumber" :: _ :: id :: b :: _ ->
-    "OK\t" ^ hex_of_str (process_yaml max_scan_token_size (str_of_hex id) (str_of_hex b))
+    "OK\t" ^ hex_of_str (process_yaml scan_limit_renumber_process_yaml (str_of_hex id) (str_of_hex b))
   | "copyright" :: _ :: v :: y :: b :: _ ->
-    "OK\t" ^ hex_of_str (update_rules max_scan_token_size (str_of_hex v) (str_of_hex y) (str_of_hex b))
+    "OK\t" ^ hex_of_str (update_rules scan_limit_copyright_update_rules (str_of_hex v) (str_of_hex y) (str_of_hex b))
   | "pat" :: name :: l :: _ ->
     let line = str_of_hex l in
     let some1 = function None -> "NOMATCH" | Some a -> "MATCH\t" ^ hex_of_str a in
@@ -111,7 +111,7 @@ let run_case (fields : string list) : string =
      | (None, i) -> "ERR\t" ^ string_of_int (int_of_nat i))
   | "format_bytes" :: b :: _ ->
     let fwd = all_pnames and bwd = List.rev all_pnames in
-    let run o = format_bytes (fun _ -> o) max_scan_token_size (str_of_hex b) in
+    let run o = format_bytes2 (fun _ -> o) scan_limit_parser_parse scan_limit_format_process_file (str_of_hex b) in
     let show = function Ok o -> "OK\t" ^ hex_of_str o | Err _ -> "ERR" | Crash _ -> "CRASH" in
     let a = show (run fwd) and c = show (run bwd) in
     if a = c then a else "ORDER-DEPENDENT\t" ^ a ^ "\x1f" ^ c
